@@ -163,7 +163,37 @@ def universe_class(b, uo, agg):
     return None
 
 
+def check_every_slot_written(ctx, F, tag, prefix):
+    """SampleIndex::new fills `samples[1..]` in a loop over the slot numbers; a slot's value is the running offset, also when no
+    value fell into the slot's interval.  Every iteration of that loop must therefore pass the store: with the store moved into the
+    inner scan (executed only when a value is consumed) the slots of empty intervals keep their initial 0, `range()` returns an
+    inverted range and every query in a gap fails.  Decided on the CFG: without the store's blocks the loop head is on no cycle."""
+    if not F.has_body(INDEX_NEW):
+        return
+    b = F.body(INDEX_NEW)
+    heads = [bi for bi, t in b.calls() if "ops::Range<" in callee_name(t) and callee_name(t).split("::")[-1] == "next" and bi in b.loop_blocks()]
+    sets = [bi for bi, t in b.calls() if callee_name(t).split("::")[-1] == "set" and "IntVector" in callee_name(t)]
+    ok = None
+    detail = "loop heads over slot numbers: %d, stores into the sample vector: %d" % (len(heads), len(sets))
+    if len(heads) == 1 and sets:
+        h = heads[0]
+        seen, st, back = set(), [x for x in b.succ(h) if x not in sets], False
+        while st:
+            x = st.pop()
+            if x == h:
+                back = True
+                break
+            if x in seen or x in sets:
+                continue
+            seen.add(x)
+            st.extend(b.succ(x))
+        ok = not back
+        detail += "; an iteration of the slot loop can complete without a store: %s" % back
+    ctx.ob(prefix + ".every-sample-slot-written", INDEX_NEW + tag, loc(b.raw["span"]), ok, "must-pass-through", detail)
+
+
 def check_tables(ctx, F, tag, prefix):
+    check_every_slot_written(ctx, F, tag, prefix)
     fb, lb = F.body(FROM), F.body(LOAD)
     # interleaving order: the k-th push per loop iteration in From stores tuple field inter[k]
     order = rpo(fb)
